@@ -80,10 +80,70 @@ class Func:
         return f"<Func {self.mod}:{self.qual}>"
 
 
+_LOG_METHODS = {"debug", "info", "warning", "warn", "error", "exception", "critical", "log"}
+
+
+def _drop_stdlib_logging(tree: ast.AST) -> None:
+    """Statements that only talk to the standard `logging` module have no effect on any value the library computes; they are removed from
+    the program the rules read (leaspy itself reports through `warnings` and its own callables, never through `logging`):
+    function-local `import logging`, `name = logging.getLogger(...)`, and expression statements `<logger>.debug/info/...(args)` whose
+    arguments contain no call.  `<logger>` is `logging`, `logging.getLogger(...)` or a name bound to `logging.getLogger(...)`."""
+    def is_getlogger(e):
+        return isinstance(e, ast.Call) and isinstance(e.func, ast.Attribute) and e.func.attr == "getLogger" and isinstance(e.func.value, ast.Name) and e.func.value.id == "logging"
+    imported = any(isinstance(n, ast.Import) and any(a.name == "logging" and a.asname is None for a in n.names) for n in ast.walk(tree))
+    if not imported:
+        return
+    loggers = {t.id for n in ast.walk(tree) if isinstance(n, ast.Assign) and is_getlogger(n.value) for t in n.targets if isinstance(t, ast.Name)}
+    # a name bound to something else as well is not a logger
+    for n in ast.walk(tree):
+        if isinstance(n, ast.Assign) and not is_getlogger(n.value):
+            for t in n.targets:
+                if isinstance(t, ast.Name):
+                    loggers.discard(t.id)
+
+    def is_logger(e):
+        return (isinstance(e, ast.Name) and (e.id == "logging" or e.id in loggers)) or is_getlogger(e)
+
+    def pure(e):
+        return not any(isinstance(x, (ast.Call, ast.Yield, ast.YieldFrom, ast.Await, ast.NamedExpr)) for x in ast.walk(e))
+
+    def droppable(st, in_function):
+        if isinstance(st, ast.Import) and in_function and all(a.name == "logging" and a.asname is None for a in st.names):
+            return True
+        if isinstance(st, ast.Assign) and in_function and is_getlogger(st.value) and all(isinstance(t, ast.Name) for t in st.targets) and all(pure(a) for a in st.value.args):
+            return True
+        if isinstance(st, ast.Expr) and isinstance(st.value, ast.Call) and isinstance(st.value.func, ast.Attribute) and st.value.func.attr in _LOG_METHODS \
+                and is_logger(st.value.func.value) and all(pure(a) for a in st.value.args) and all(pure(k.value) for k in st.value.keywords) \
+                and (not is_getlogger(st.value.func.value) or all(pure(a) for a in st.value.func.value.args)):
+            return True
+        return False
+
+    def visit(holder, in_function):
+        for field in ("body", "orelse", "finalbody", "handlers"):
+            body = getattr(holder, field, None)
+            if not isinstance(body, list):
+                continue
+            if field != "handlers":
+                kept = [st for st in body if not droppable(st, in_function)]
+                if len(kept) != len(body):
+                    if not kept and field == "body":
+                        ps = ast.Pass()
+                        ast.copy_location(ps, body[0])
+                        kept = [ps]
+                    body[:] = kept
+            for st in body:
+                visit(st, in_function or isinstance(st, (ast.FunctionDef, ast.AsyncFunctionDef)))
+        for cs in getattr(holder, "cases", []) or []:
+            visit(cs, in_function)
+    visit(tree, False)
+
+
 def normalise_tree(tree: ast.AST) -> None:
     """Behaviour-preserving normal form applied to every module before any rule looks at it:
     `x = EXPR` immediately followed by `return x` (x a plain local) becomes `return EXPR` (keeps the position of EXPR's statement);
-    an equality written with the enum member / literal on the left is turned round.
+    an equality written with the enum member / literal on the left is turned round;
+    statements that only talk to the standard `logging` module are dropped (see `_drop_stdlib_logging`);
+    a two-armed `if` / conditional expression whose test is negated (`not c`, `!=`, `is not`, `not in`) gets the positive test and exchanged branches.
     Rules therefore see the same program whether or not a result is named before being returned."""
     # `CONSTANT == x` -> `x == CONSTANT` (equalities with an enum member / literal on one side only): one orientation for the rules to read
     def _constlike(e):
@@ -91,6 +151,23 @@ def normalise_tree(tree: ast.AST) -> None:
     for c in ast.walk(tree):
         if isinstance(c, ast.Compare) and len(c.ops) == 1 and isinstance(c.ops[0], (ast.Eq, ast.NotEq)) and _constlike(c.left) and not _constlike(c.comparators[0]):
             c.left, c.comparators[0] = c.comparators[0], c.left
+    _drop_stdlib_logging(tree)
+    # two-armed `if` / conditional expression with a negated test (`not c`, `!=`, `is not`, `not in`): positive test, branches exchanged
+    _NEG = {ast.NotEq: ast.Eq, ast.IsNot: ast.Is, ast.NotIn: ast.In}
+
+    def _positive(t):
+        if isinstance(t, ast.UnaryOp) and isinstance(t.op, ast.Not):
+            return t.operand
+        if isinstance(t, ast.Compare) and len(t.ops) == 1 and type(t.ops[0]) in _NEG:
+            c = ast.Compare(left=t.left, ops=[_NEG[type(t.ops[0])]()], comparators=t.comparators)
+            return ast.copy_location(c, t)
+        return None
+    for n in ast.walk(tree):
+        if (isinstance(n, ast.If) and n.orelse and not (len(n.orelse) == 1 and isinstance(n.orelse[0], ast.If))) or isinstance(n, ast.IfExp):
+            pt = _positive(n.test)
+            if pt is not None:
+                n.test = pt
+                n.body, n.orelse = n.orelse, n.body
     for fn in ast.walk(tree):
         if not isinstance(fn, (ast.FunctionDef, ast.AsyncFunctionDef)):
             continue
